@@ -4,15 +4,62 @@ package main
 // (see DESIGN.md, C19 schedule clause). Meeting one aborts the harness as
 // UNSUPPORTED — never as success.
 
-import "golang.org/x/tools/go/ssa"
+import (
+	"go/types"
 
+	"golang.org/x/tools/go/ssa"
+)
+
+// Buffered channels used sequentially are supported: a send needs free
+// capacity, a receive needs a queued element or a closed channel. Anything
+// that would block is a schedule question and aborts the harness.
 func (ex *Exec) chanRecv(c *ctx, x *ssa.UnOp, work *[]*ctx, outs *[]Outcome) bool {
-	unsup("channel receive")
-	return false
+	ch := ex.val(c, x.X).(ChanV)
+	if ch.obj == 0 {
+		unsup("receive from nil channel (blocks forever)")
+	}
+	o := c.st.mut(ch.obj)
+	cd := *o.val.(*ChanData)
+	elem := x.X.Type().Underlying().(*types.Chan).Elem()
+	var v Value
+	ok := true
+	switch {
+	case len(cd.buf) > 0:
+		v = cd.buf[0]
+		cd.buf = append([]Value(nil), cd.buf[1:]...)
+		o.val = &cd
+	case cd.closed:
+		v, ok = ex.zero(elem), false
+	default:
+		unsup("receive on an empty open channel would block (goroutine schedules are outside the executor)")
+	}
+	if x.CommaOk {
+		ex.set(c, x, TupleV{v, ex.tt.Bool(ok)})
+	} else {
+		ex.set(c, x, v)
+	}
+	c.pc++
+	return true
 }
 func (ex *Exec) chanSend(c *ctx, x *ssa.Send, work *[]*ctx, outs *[]Outcome) bool {
-	unsup("channel send")
-	return false
+	ch := ex.val(c, x.Chan).(ChanV)
+	if ch.obj == 0 {
+		unsup("send on nil channel (blocks forever)")
+	}
+	o := c.st.mut(ch.obj)
+	cd := *o.val.(*ChanData)
+	if cd.closed {
+		ex.obligations++
+		ex.recordViolation(c.st, "panic", ex.pos(x), c.fn.String(), "send on closed channel")
+		return false
+	}
+	if len(cd.buf) >= cd.cap {
+		unsup("send on a full channel would block (goroutine schedules are outside the executor)")
+	}
+	cd.buf = append(append([]Value(nil), cd.buf...), ex.val(c, x.X))
+	o.val = &cd
+	c.pc++
+	return true
 }
 func (ex *Exec) selectStmt(c *ctx, x *ssa.Select, work *[]*ctx, outs *[]Outcome) bool {
 	unsup("select statement")
